@@ -255,3 +255,6 @@ mod tests {
         assert_eq!(sdjwt.input_disclosures, vec!["disc1".to_string(), "disc2".to_string()]);
     }
 }
+
+#[cfg(all(feature = "mock_salts", sd_jwt_rs_verif))]
+pub mod verif_hook;
